@@ -256,8 +256,23 @@ func ruleR08b(c *Check, w *wrapperInfo) {
 		return
 	}
 	fname := c.P.FuncName(fn)
-	fsGet, remGet := w.tierCalls(c, fn, "Get")
-	fsSet, _ := w.tierCalls(c, fn, "Set")
+	// the remote fetch and the local fill may sit in a helper of Get (same receiver)
+	region := regionOf(c, fn)
+	var regionFns []*ssa.Function
+	for f := range region {
+		if f.Signature.Recv() != nil && fn.Signature.Recv() != nil && types.Identical(f.Signature.Recv().Type(), fn.Signature.Recv().Type()) && (f == fn || (f.Name() != "Set" && f.Name() != "Exists" && f.Name() != "Delete")) {
+			regionFns = append(regionFns, f)
+		}
+	}
+	sort.Slice(regionFns, func(i, j int) bool { return c.P.FuncName(regionFns[i]) < c.P.FuncName(regionFns[j]) })
+	fsGet, _ := w.tierCalls(c, fn, "Get")
+	var remGet, fsSet []ssa.CallInstruction
+	for _, f := range regionFns {
+		_, rg := w.tierCalls(c, f, "Get")
+		fsS, _ := w.tierCalls(c, f, "Set")
+		remGet = append(remGet, rg...)
+		fsSet = append(fsSet, fsS...)
+	}
 	if len(fsGet) == 0 || len(remGet) == 0 || len(fsSet) == 0 {
 		c.Bad("R08b", "read-through/"+fname, fmt.Sprintf("Get does not implement read-through (local reads: %d, remote reads: %d, local fills: %d)", len(fsGet), len(remGet), len(fsSet)), c.P.Pos(fn.Pos()))
 		return
@@ -265,17 +280,28 @@ func ruleR08b(c *Check, w *wrapperInfo) {
 	// fill content is the remote stream
 	okFill := true
 	for _, s := range fsSet {
+		g := s.Parent()
 		args := s.Common().Args
 		content := args[len(args)-1]
 		set := map[ssa.CallInstruction]int{}
 		for _, r := range remGet {
-			set[r] = 0
+			if r.Parent() == g {
+				set[r] = 0
+			}
 		}
-		if !engine.OriginsAllFromCall(content, set, false) {
+		if len(set) == 0 || !engine.OriginsAllFromCall(content, set, false) {
 			okFill = false
 		}
-		for _, r := range remGet {
-			if wy := onlyAfterSuccess(fn, r, s); wy != "" {
+		for r := range set {
+			if wy := onlyAfterSuccess(g, r, s); wy != "" {
+				okFill = false
+			}
+		}
+		// a fill inside a helper: Get learns of its failure (and of a failed fetch)
+		if g != fn {
+			isThis := func(x ssa.CallInstruction) bool { return x == s || set[x] == 0 && containsCall(remGet, x) && x.Parent() == g }
+			lifted, leaks := liftedSites(c, fn, isThis, 0)
+			if len(lifted) == 0 || len(leaks) > 0 {
 				okFill = false
 			}
 		}
@@ -301,7 +327,7 @@ func ruleR08b(c *Check, w *wrapperInfo) {
 		}
 	}
 	c.Require(okRet, "R08b", "return-local-reader/"+fname, "every reader handed out comes from a read of the local tier", "Get hands out a reader that is not a read of the local tier (a remote stream would bypass the local fill and could be partially consumed)", c.P.Pos(fn.Pos()))
-	requireNoDroppedErrors(c, "R08b", []*ssa.Function{fn}, nil)
+	requireNoDroppedErrors(c, "R08b", regionFns, nil)
 }
 
 func returnsCallResult(r *ssa.Return, calls []ssa.CallInstruction) bool {
